@@ -6,6 +6,7 @@ import clientproto as cp
 import wire
 
 LEVEL = 'proof'
+TRUSTED_EXTRA = ['harness/pytrans.py + harness/pytrans2.py: fail-closed translators of hpfeeds/protocol.py and of BaseProtocol/ClientProtocol of the three protocol.py files -> coq/ProtoGen.v, coq/ProtoClsGen.v (regenerated on every run), with coq/PyPrim.v and coq/PyObj.v (method dispatch along the MRO, for-loops over the Unpacker, try/except, the recording subclass of harness/clientproto.py); the translated classes are proved equal to the hand-written dispatchers in coq/ProtoClsEq.v, and the C16_src_* theorems are about the translated text']
 ASSUMPTIONS = ['handlers are observed through recording subclasses that delegate to the library defaults and return None',
                'an exception escaping data_received/dataReceived counts as a connection-dropping event in all three frameworks']
 IMPORTS = 'Bytes Wire Run ClientProto ClientRun'
